@@ -380,8 +380,11 @@ class Check:
         }
         if self.violations:
             ev["coverage"]["violation_list"] = self.violations[:20]
-        os.makedirs(os.path.join(V, "evidence"), exist_ok=True)
-        path = os.path.join(V, "evidence", self.pid + ".json")
+        # evidence/ describes runs against /repo itself; runs against a scratch worktree (mutants, seeded changes)
+        # or reduced development runs must not overwrite it
+        edir = "evidence" if (REPO == "/repo" and not os.environ.get("VERIF_SCRATCH_EVIDENCE")) else os.path.join("work", "evidence-scratch")
+        os.makedirs(os.path.join(V, edir), exist_ok=True)
+        path = os.path.join(V, edir, self.pid + ".json")
         with open(path + ".tmp", "w") as f:
             json.dump(ev, f, indent=1, sort_keys=True, default=str)
         os.replace(path + ".tmp", path)
